@@ -164,6 +164,7 @@ type hijackWatch struct {
 	sync.Mutex
 	source  watch.Interface
 	result  chan watch.Event
+	done    chan struct{}
 	stopped bool
 }
 
@@ -171,6 +172,7 @@ func newHijackWatch(source watch.Interface) watch.Interface {
 	w := &hijackWatch{
 		source: source,
 		result: make(chan watch.Event),
+		done:   make(chan struct{}),
 	}
 	go w.receive()
 	return w
@@ -181,7 +183,19 @@ func (w *hijackWatch) Stop() {
 	defer w.Unlock()
 	if !w.stopped {
 		w.stopped = true
+		close(w.done)
 		w.source.Stop()
+	}
+}
+
+// send delivers event to the consumer unless the watch is stopped first; it reports whether the
+// relay should go on.
+func (w *hijackWatch) send(event watch.Event) bool {
+	select {
+	case w.result <- event:
+		return true
+	case <-w.done:
+		return false
 	}
 }
 
@@ -198,16 +212,20 @@ func (w *hijackWatch) receive() {
 			asts, ok := event.Object.(*asv1.StatefulSet)
 			if !ok {
 				// not a StatefulSet: an Error event carries a *metav1.Status. Relay it as it is.
-				w.result <- event
+				if !w.send(event) {
+					return
+				}
 				continue
 			}
 			sts, err := ToBuiltinStatefulSet(asts)
 			if err != nil {
 				panic(err)
 			}
-			w.result <- watch.Event{
+			if !w.send(watch.Event{
 				Type:   event.Type,
 				Object: sts,
+			}) {
+				return
 			}
 		}
 	}
